@@ -879,6 +879,8 @@ UNITS = [
     ("asyncio.locks (stdlib)", ["AsyncioLocks.lean"], lambda src: __import__("asynciolocks2lean").generate(src)),
     ("PriorityLock / PriorityTask lock layer", ["Lock.lean"], lambda src: __import__("lock2lean").generate(src)),
     ("CoroStart, _Continuation, coro_eager, cancelling", ["CoroStart.lean"], lambda src: __import__("corostart2lean").generate(src)),
+    ("collections.abc mixins inherited by asynkit classes (stdlib)", ["CollectionsAbc.lean"],
+     lambda src: __import__("collectionsabc2lean").generate(src)),
     ("monitor.py: Monitor, BoundMonitor, GeneratorObject(Iterator)", ["Monitor.lean"],
      lambda src: __import__("monitor2lean").generate(src)),
 ]
